@@ -583,6 +583,25 @@ def check_sum_clip(ctx):
     grid_p = fi.params[1]
     # accumulation: result = self[0].get_phase_field(grid, ...); for d in self[1:]: result += d.get_phase_field(grid)
     loops = [s for s in fv.statements() if isinstance(s, ast.For)]
+    if len(loops) > 1:
+        # several loops: the one that accumulates the members' fields is the sum; every other way of producing the
+        # returned field for a non-empty emulsion bypasses it
+        acc_loops = [l_ for l_ in loops if any(isinstance(a_, ast.AugAssign) and isinstance(a_.op, ast.Add) and "get_phase_field" in U(a_.value) for a_ in ast.walk(l_))]
+        if len(acc_loops) == 1:
+            from .empty import nonempty_guard
+
+            lp0 = acc_loops[0]
+            for rn in fv.return_nodes():
+                r = rn.stmt
+                if r.value is None or fv.dominates(lp0, r):
+                    continue
+                g_ = si.effective_guards(r)
+                empty_case = any(nonempty_guard(t_, "self", not p_) for t_, p_ in g_)
+                if not empty_case:
+                    ctx.violate("SUMCLIP", site + ":sum", (fi, r), f"`{U(r)[:70]}` returns a field that is not the clipped sum of the members' get_phase_field images "
+                                f"(taken under {[U(t_)[:50] for t_, _p in g_]}): on that path members are rendered differently (e.g. diffuse or perturbed members of a mixed emulsion as sharp masks)")
+                    return
+            loops = acc_loops
     if len(loops) != 1:
         ctx.undecided("SUMCLIP", site, fi, f"{len(loops)} loops")
         return
